@@ -716,6 +716,10 @@ _MODELS = {
     ".lower": lambda s: _txt(s).lower(), ".upper": lambda s: _txt(s).upper(), ".casefold": lambda s: _txt(s).casefold(),
     ".strip": lambda s, *a: _txt(s).strip(*a), ".lstrip": lambda s, *a: _txt(s).lstrip(*a), ".rstrip": lambda s, *a: _txt(s).rstrip(*a),
     ".replace": lambda s, a, b, *c: _txt(s).replace(a, b, *c), ".find": lambda s, *a: _txt(s).find(*a),
+    "ext:bisect.bisect_right": lambda a, x, *r: __import__("bisect").bisect_right(list(_seq(a)), x, *r),
+    "ext:bisect.bisect_left": lambda a, x, *r: __import__("bisect").bisect_left(list(_seq(a)), x, *r),
+    "ext:bisect.bisect": lambda a, x, *r: __import__("bisect").bisect_right(list(_seq(a)), x, *r),
+    ".is_absolute": lambda p_: _path(p_).is_absolute(),
     ".joinpath": lambda p_, *a: _path(p_).joinpath(*a), ".with_name": lambda p_, n: _path(p_).with_name(n),
     ".with_suffix": lambda p_, n: _path(p_).with_suffix(n), "ext:pathlib.Path": lambda *a: _PurePath(*a),
     ".decode": lambda s, *a, **k: _buf(s).decode(*a, **k), ".encode": lambda s, *a, **k: _str(s).encode(*a, **k),
@@ -767,6 +771,12 @@ from pathlib import PurePosixPath as _PurePath  # noqa: E402  (a value model of 
 def _path(x):
     if not isinstance(x, _PurePath):
         raise TypeError("not a path")
+    return x
+
+
+def _seq(x):
+    if not isinstance(x, (tuple, list)):
+        raise TypeError("not a sequence")
     return x
 
 
